@@ -110,6 +110,7 @@ def run(cr: CheckRun) -> None:
         for h, ex in r[4]:
             cr.violation("TextParses", f"rendered text of {h} is not in the operand grammar: {ex}", {"kind": "parse", "bytes": list(bytes.fromhex(h))})
     cr.cov["programs"] = nexec
+    cr.cov["traces_validated_against_impl"] = nexec          # one-step executions of the real code judged against the specification
     cr.cov["evaluations"] = nexec
     cr.cov["distinct_nontrivial"] = len(encs)
     cr.cov["skipped_unspecified"] = skipped.get("unspec", 0)
